@@ -473,7 +473,11 @@ let parse_json (s : string) : jv =
       if !i = d0 then raise Json_syntax;
       if !i - d0 > 1 && s.[d0] = '0' then raise Json_syntax;
       let is_int = not (!i < n && (s.[!i] = '.' || s.[!i] = 'e' || s.[!i] = 'E')) in
-      if is_int then JInt (z_of_decimal (String.sub s st (!i - st)))
+      if is_int then begin
+        (* serde_json reads "-0" as the float -0.0 (to keep the sign), which no integer field accepts *)
+        match z_of_decimal (String.sub s st (!i - st)) with
+        | Z0 when c = '-' -> JOther
+        | z -> JInt z end
       else begin
         if s.[!i] = '.' then (incr i; let f0 = !i in while !i < n && s.[!i] >= '0' && s.[!i] <= '9' do incr i done; if !i = f0 then raise Json_syntax);
         if !i < n && (s.[!i] = 'e' || s.[!i] = 'E') then begin
